@@ -57,4 +57,12 @@ var registry = []Harness{
 		Quick:    [][]int{{0, 1, 3}, {0, 3, 4}, {0, 4, 4}, {1, 4, 4}, {2, 4, 3}, {3, 4, 3}},
 		Thorough: [][]int{{0, 1, 4}, {0, 2, 4}, {0, 3, 5}, {0, 4, 5}, {0, 5, 5}, {0, 6, 5}, {0, 7, 5}, {1, 3, 4}, {1, 4, 5}, {1, 7, 5}, {2, 3, 4}, {2, 4, 4}, {2, 7, 5}, {3, 3, 4}, {3, 4, 4}, {3, 7, 5}},
 		Bound:    "NeoFS contract without Notary, n stored Alphabet keys (param 1), k invocations (param 2) of one method (param 0: setConfig/cheque/alphabetUpdate/innerRingCandidateRemove), each by a symbolic caller (member 0..n-1 or a stranger) for one of two decision ids after a symbolic gap of 0..25 blocks; reference model: live-ballot reading (DESIGN.md C17)"},
+	{Prop: "C14", Pkg: "container", Func: "VerifC14Roster", Link: []string{"nns", "netmap", "balance", "neofsid", "container"},
+		Quick: [][]int{{2, 1, 1}, {0, 0, 1}, {1, 0, 2}}, Thorough: [][]int{{2, 1, 1}, {0, 0, 1}, {1, 0, 2}, {3, 2, 3}, {1, 3, 0}},
+		Bound: "batches of symbolic 33-byte keys of sizes (param0,param1) for vector 0 and param2 for vector 1, commit with symbolic REPs 0..255, second round with one batch, empty commit"},
+	{Prop: "C14", Pkg: "container", Func: "VerifC14Counter", Link: []string{"container"},
+		Bound: "kernel counterToBytes/counterFromBytes for every counter 1..32767 (two symbolic counters): two bytes, order preserving, round trip"},
+	{Prop: "C14", Pkg: "container", Func: "VerifC14Signatures", Link: []string{"nns", "netmap", "balance", "neofsid", "container"},
+		Quick: [][]int{{1, 2, 1}, {1, 3, 1}, {2, 2, 2}, {2, 2, 1}, {1, 2, 0}}, Thorough: [][]int{{1, 1, 1}, {1, 2, 1}, {1, 3, 1}, {2, 2, 2}, {2, 2, 1}, {1, 2, 0}, {2, 1, 2}},
+		Bound: "vector 0 = {m0,m1}, optional vector 1 = {m2}; REPs symbolic 0..4; per row up to 3 (resp. 2) signature tokens, each with symbolic signer (member 0..2 / outsider) and made for the message or for another one; rows handed in = param 2"},
 }
